@@ -700,7 +700,20 @@ def string_fragment(report, uri_consts, shape_consts):
             ("shexer/io/graph/yielder/nt_triples_yielder.py", 'NtTriplesYielder', '_look_for_last_index_of_literal_token', 'nt_look_for_last_index_of_literal_token',
              {'target_str': 'str', 'first_index': 'int'}, 'int'),
             ("shexer/io/graph/yielder/nt_triples_yielder.py", 'NtTriplesYielder', '_look_for_tokens', 'nt_look_for_tokens',
-             {'str_line': 'str'}, 'strlist')]
+             {'str_line': 'str'}, 'strlist'),
+            # the streaming Turtle reader: comment removal and the scans of its tokenizer
+            ("shexer/io/graph/yielder/big_ttl_triples_yielder.py", 'BigTtlTriplesYielder', '_remove_comments_if_needed', 'ttl_remove_comments_if_needed',
+             {'str_line': 'str'}, 'str'),
+            ("shexer/io/graph/yielder/big_ttl_triples_yielder.py", 'BigTtlTriplesYielder', '_find_next_blank', 'ttl_find_next_blank',
+             {'target_str': 'str', 'start_index': 'int'}, 'int'),
+            ("shexer/io/graph/yielder/big_ttl_triples_yielder.py", 'BigTtlTriplesYielder', '_count_prior_backslashes', 'ttl_count_prior_backslashes',
+             {'an_str': 'str', 'quote_pos': 'int'}, 'int'),
+            ("shexer/io/graph/yielder/big_ttl_triples_yielder.py", 'BigTtlTriplesYielder', '_find_next_unescaped_quotes', 'ttl_find_next_unescaped_quotes',
+             {'target_str': 'str', 'start_index': 'int'}, 'int'),
+            ("shexer/io/graph/yielder/big_ttl_triples_yielder.py", 'BigTtlTriplesYielder', '_find_next_quoted_literal_ending', 'ttl_find_next_quoted_literal_ending',
+             {'target_str': 'str', 'start_index': 'int'}, 'int'),
+            ("shexer/io/graph/yielder/big_ttl_triples_yielder.py", 'BigTtlTriplesYielder', '_expand_prefixed_datatype_if_needed', 'ttl_expand_prefixed_datatype_if_needed',
+             {'self._prefixes': 'strdict', 'raw_literal': 'str'}, 'str')]
     funcs = {}
     for rel, cls, pyname, lname, types, ret in jobs:
         try:
